@@ -485,25 +485,25 @@ PROPS = {
 # Additions made after the seeded-change waves 9-11 (kept apart so the older text above stays as it was reviewed).
 _LATER = {
     "C01": "TestC01Register: the per-tracker send path (hook VerifRegister) with name / description / password lengths from {0,1,50,127,128,200,237..240,254,255}: the tracker socket receives exactly one datagram that equals the reference encoding (non-trivial = record longer than 508 bytes); TestC01 scribbles over the source buffer after constructing a field (the field must have kept its own copy); the date case draws the host's time zone (fixed offsets -12:00..+14:00 in quarter hours): the same wall-clock reading must encode to the same bytes",
-    "C02": "folder uploads leave leftovers (partial and complete items) that both partitions must agree on; the session client's replies are compared in order; a banner may be configured (same in both worlds)",
-    "C03": "while the hostile connections end, three goroutines read the server counters (Stats.Values) in a loop: a reader that blocks forever is a wedge (watchdog); TestC03Net: transfer-port storm kinds, the sentinel downloads a file of its own root before, during and after each batch and after bursts of 40 simultaneous transfer connections, and must get the file's bytes; one valid transfer grant presented on three transfer connections at the same instant (XRef replayed); TestC03Stalled: 63-200 logged-in peers stop reading while a broadcast waits for each of them: the well-behaved client's requests are answered, a newcomer can log in, and the user list is back to the well-behaved clients once the peers are gone",
+    "C02": "folder uploads leave leftovers (partial and complete items) that both partitions must agree on; the session client's replies are compared in order; a banner may be configured (same in both worlds); the sessions also run against a server that keeps resource and information forks in side files (both worlds alike), so the stored forks are part of the compared state",
+    "C03": "while the hostile connections end, three goroutines read the server counters (Stats.Values) in a loop: a reader that blocks forever is a wedge (watchdog); TestC03Net: transfer-port storm kinds, the sentinel downloads a file of its own root before, during and after each batch and after bursts of 40 simultaneous transfer connections, and must get the file's bytes; one valid transfer grant presented on three transfer connections at the same instant (XRef replayed); TestC03Stalled: 63-200 logged-in peers stop reading while a broadcast waits for each of them: the well-behaved client's requests are answered, a newcomer can log in, and the user list is back to the well-behaved clients once the peers are gone; in a third of the cases a hostile user invites the sentinel to a new private chat and leaves it at once, and the sentinel accepts: it gets an answer and stays connected",
     "C04": "logins whose file names are odd (.ops, a.b, x.yaml, -dash, ~t, #h), the data-size word of the login transaction varied, creations that must be refused (login with a path separator, 250 bytes) made before the attempt: none of them may open a door; logins that are an existing login (or the empty guest login) followed by one or two NUL bytes, with that account's password: another byte string, no account",
     "C05": "cells added: ../-names in upload / rename, side-file kinds, an account record without a name (the logged-in name must be the one the account allows); TestC05GhostCategory: post-article to a news path that does not exist, by a requester without create-category / create-bundle: no grouping may appear in memory or in the file",
-    "C06": "TestC06RenameForm (update-user rename form), TestC06GraceWindow, TestC06TwoCreators (two creators at one instant: neither account holds a bit its creator lacks), TestC06Bystander (a protected user sharing the kicked user's address is neither dropped nor refused), schedule point before registry delete in TestC06LoginWindow; creators whose privileges were set at run time (set-user) keep the 24 bits that name no privilege, and may request them: the created account holds exactly what was requested",
-    "C07": "aliases are made in one folder and then moved to another (shallower or deeper) one: the link must still resolve inside the root; an account with a root of its own is edited through set-user and the server restarted; the file root is spelled with trailing separators / dot segments / relative forms; in a third of the per-account-root cases the root folder has been renamed away before the requests (the account then has no files; nothing of the server's tree may be touched, listed or disclosed instead)",
+    "C06": "TestC06RenameForm (update-user rename form), TestC06GraceWindow, TestC06TwoCreators (two creators at one instant: neither account holds a bit its creator lacks), TestC06Bystander (a protected user sharing the kicked user's address is neither dropped nor refused), schedule point before registry delete in TestC06LoginWindow; creators whose privileges were set at run time (set-user) keep the 24 bits that name no privilege, and may request them: the created account holds exactly what was requested; creations also arrive as the second entry of a batch request whose first entry edits another account (each entry is judged on its own; the edited account must still be there)",
+    "C07": "aliases are made in one folder and then moved to another (shallower or deeper) one: the link must still resolve inside the root; an account with a root of its own is edited through set-user and the server restarted; the file root is spelled with trailing separators / dot segments / relative forms; in a third of the per-account-root cases the root folder has been renamed away before the requests (the account then has no files; nothing of the server's tree may be touched, listed or disclosed instead); a third of the folder uploads go into a folder that holds partial files exactly where the server will look for the streamed items (the leftovers of a cut earlier upload), so that the resume branch is taken with traversal item paths",
     "C08": "client-info requests between grant and transfer; comments of 32 600-65 535 bytes; paths 254-300 folders deep; TestC08ManyGrants: up to hundreds of outstanding grants (files and banner) redeemed in drawn order, each delivers its own bytes; TestC08Slow (child process): 24 MiB file, the reader pauses 33 s after the first MiB and must still get every byte; previews that carry a resume offset (bare data from the offset on); resume data layouts: data fork entry alone, followed by a resource fork entry, or with the fork type in lower case / empty (then the server may resume at the offset or at 0, reply and stream must agree)",
     "C09": "a download of the name while the upload is partial (must not serve the partial under the final name); info forks without the comment-size word; TestC09HugeAnnounced: announced data-fork sizes of 2^31..2^32-1 with a stream that ends early: no file under the final name, the partial holds a prefix; between cut and resume a move request for the unfinished entry: whether the server leaves it or takes the partial data along, the name is not published and the upload goes on where the partial data is; slow writers: 2 / 11 / 45 fake seconds pass between the segments of the client's stream",
-    "C10": "download trees are decorated with stored resource / info side files, aliases and leftovers of interrupted uploads (X.incomplete): each item's bytes must match its own header and names arrive unchanged; PreserveResourceForks drawn in downloads; after preserve uploads the stored forks are checked; a third of the decorated files have an information fork only (what set-comment leaves behind): three forks with an empty resource fork are announced and the rest of the tree must still arrive; one name in fifteen is padded to 200-244 bytes (files; the .incomplete suffix must still fit the file system) or 244-255 bytes (folders)",
-    "C11": "comments of 33 000 / 60 000 bytes; every fourth listed file is downloaded through to its bytes; TestC11BigSizes: sparse files of 2^24..2^32-1 bytes, list == get-info == download reply == size on disk; TestC11WideFolder: folders of 65 536 / 65 537 / 65 540 visible entries plus hidden ones are listed with their entry count; create-folder requests whose path names a folder that is not there: nothing appears on disk",
+    "C10": "download trees are decorated with stored resource / info side files, aliases and leftovers of interrupted uploads (X.incomplete): each item's bytes must match its own header and names arrive unchanged; PreserveResourceForks drawn in downloads; after preserve uploads the stored forks are checked; a third of the decorated files have an information fork only (what set-comment leaves behind): three forks with an empty resource fork are announced and the rest of the tree must still arrive; one name in fifteen is padded to 200-244 bytes (files; the .incomplete suffix must still fit the file system) or 244-255 bytes (folders); a sixth of the pre-seeded places hold an alias whose target is gone: there is no file yet, the item must be sent and stored",
+    "C11": "comments of 33 000 / 60 000 bytes; every fourth listed file is downloaded through to its bytes; TestC11BigSizes: sparse files of 2^24..2^32-1 bytes, list == get-info == download reply == size on disk; TestC11WideFolder: folders of 65 536 / 65 537 / 65 540 visible entries plus hidden ones are listed with their entry count; create-folder requests whose path names a folder that is not there: nothing appears on disk; file names draw their extension from the server's type table plus thirty common ones it does not know",
     "C12": "restarts (chats are gone afterwards), invitations by non-members, the refuse-private-chat preference (decline notice names the decliner, never addressed to chat 0), names containing %, unknown chat ids other than 0; users take another name in mid-session (with or without the options field) and speak under it; TestC12ManyChats: private chats are opened until the server hands out an id whose low or high half is zero (up to 300 000; non-trivial = found): a line said there reaches the member, with that chat id, and no connected non-member",
-    "C13": "set-user edits of an account whose user is connected (disconnect / same / other name), followed by the same presence comparison",
+    "C13": "set-user edits of an account whose user is connected (disconnect / same / other name), followed by the same presence comparison; names with carriage returns and line feeds; chat lines (plain and emote) between presence events",
     "C14": "latecomers who log in while the plan runs (agreements of several sizes), a 300-article news listing, requests naming unknown chats sent by a connection of their own; TestC14Stalled: the stalled clients start reading again after 1 s .. 10 min of fake time and must receive whole transactions only, every queued broadcast at most once; disconnect requests naming user ids nobody has (with and without ban option), sent by the stranger connection; request ids 0, 0xFFFFFFFF and 0x80000000 (each at most once per client); TestC14Stalled: now and then 4200 or 6000 chat lines pile up for the stalled clients; TestC14LiveStalled (production pump, real scheduler): one peer stops reading while 4200-9000 chat lines are said: the active clients receive every line and every reply",
     "C15": "passwords of 73 / 100 / 255 bytes (bcrypt's limit is 72), names of 300 / 500 / 2000 bytes, new-user over a file that another login's record occupies; no two accounts may share a stored password hash (also the password-less ones); the administrator edits the name of the account it is logged in with and asks for it: get-user, list-users and the file show the new name; TestC15OperatorFile: the account lives in a file that is not named after its login (six file-name patterns sorting before and after <login>.yaml); 1-4 operations out of edit / password change / rename / delete / restart, and after each the listing, a fresh manager and login attempts with every password must agree with the model; TestC15ManyAccounts: 254-513 accounts exist as files at start-up (plus 0-3 made through the protocol): the listing shows each once, a sample logs in; TestC15OperatorFile also gives the login of a deleted account to a new one",
     "C16": "TestC16Wire: creation of shadow logins (./u, u/., U) next to an existing one, set-user spelled in another case, and the account listing fetched before and after an edit must show the edit; TestC16Authz also runs every cell with each of the 24 bits that name no privilege alone (delivered by set-user): nothing may be granted; TestC05 keeps random undefined bits on the set-user path",
-    "C17": "a protected account; kicks aimed at a user who is leaving at that instant; reloads of the ban file racing a ban (the in-memory answer is compared too); TestC17Net (child process, production accept loop): three clients from three loopback addresses, one is kicked with a ban: only its address is refused afterwards, the others reconnect; the ban file cannot be rewritten for a while (its temporary name is taken by a folder): a disconnect-with-ban that is acknowledged must be enforced by the running server; restarts and reloads go by the file; TestC17Main: the repository's main program as a child process with a configuration directory of the operator's choice (created by -init): a guest is disconnected with a temporary or permanent ban; the address is refused and another admitted, before and after a restart (SIGTERM or SIGKILL, with or without -init), and the ban file of that directory lists the address",
+    "C17": "a protected account; kicks aimed at a user who is leaving at that instant; reloads of the ban file racing a ban (the in-memory answer is compared too); TestC17Net (child process, production accept loop): three clients from three loopback addresses, one is kicked with a ban: only its address is refused afterwards, the others reconnect; the ban file cannot be rewritten for a while (its temporary name is taken by a folder): a disconnect-with-ban that is acknowledged must be enforced by the running server; restarts and reloads go by the file; TestC17Main: the repository's main program as a child process with a configuration directory of the operator's choice (created by -init): a guest is disconnected with a temporary or permanent ban; the address is refused and another admitted, before and after a restart (SIGTERM or SIGKILL, with or without -init), and the ban file of that directory lists the address; a banned peer sends a valid login, a wrong password, an unknown login or only its handshake: each time exactly the ban notice and the end of the connection",
     "C18": "stale paths whose last component is missing; the path field absent / empty / zero-count / truncated; delete-item followed by listings of the former sub-paths; posts after deletions keep their parent; TestC18DeepPath: bundles nested 1-40 deep with names of 1-255 bytes (encoded path up to ~5.3 KiB), a category with an article and a reply at the bottom, then nothing / reload / restart: every level lists exactly its child, the articles are listed and fetched, deleting the innermost bundle removes exactly it (non-trivial = encoded path longer than 512 bytes); the operator adds a category to the news file and reloads, a client deletes it: the file a restart would load does not hold it any more; TestC18ListBurst: 3-8 connections list the children of different bundles (3-124 categories each) and of the root at the same instant, for 3-8 rounds: every reply holds exactly the children of the path it asked about",
-    "C19": "reloads that fail (unreadable file) and posts that fail (unwritable file; the post may or may not count, nothing else may change), reloads during rounds, operator trims of the board between reads, the date stamp of each post compared with the fake clock (minute of day drawn); posts, the initial board and the agreement hold Mac Roman bytes that are not valid UTF-8; TestC19Main: the repository's main program as a child process: 1-3 times the operator rewrites Agreement.txt or MessageBoard.txt (20 / 600 / 33000 bytes) and sends SIGHUP - in half of the cases while Banlist.yaml or ThreadedNews.yaml cannot be parsed at that moment; the next guest is shown / the next reader is served exactly the rewritten text and the server is still running",
-    "C20": "accounts in the legacy storage form are migrated at start-up (privileges compared over the defined bits); after every kill point the touched accounts are also deleted and, for a crashed rename, the new login is created afresh: both must be acknowledged and no other account may vanish; TestC20Acked also compares the in-memory category with the news file at each acknowledgement and includes news replies; after every kill point the accounts the interrupted update was about are also edited in place: the edit must be acknowledged, loaded by the next restart and leave every other account alone; TestC20Main: the repository's own main program (built from the current tree) is started with -init on a missing configuration directory, the administrator of the default configuration makes 1-4 acknowledged changes over loopback TCP (delete / rename / edit the default guest account, create and delete accounts, board post, news category), the process is killed at the last acknowledgement and started again with or without -init: the account directory (production loader) must hold exactly the accounts the acknowledged changes leave, board and news files the posts and categories, and the restarted server must admit the remaining accounts and refuse the deleted and renamed-away logins",
+    "C19": "reloads that fail (unreadable file) and posts that fail (unwritable file; the post may or may not count, nothing else may change), reloads during rounds, operator trims of the board between reads, the date stamp of each post compared with the fake clock (minute of day drawn); posts, the initial board and the agreement hold Mac Roman bytes that are not valid UTF-8; TestC19Main: the repository's main program as a child process: 1-3 times the operator rewrites Agreement.txt or MessageBoard.txt (20 / 600 / 33000 bytes) and sends SIGHUP - in half of the cases while Banlist.yaml or ThreadedNews.yaml cannot be parsed at that moment; the next guest is shown / the next reader is served exactly the rewritten text and the server is still running; when no operator edit is in the case, one more client reacts to every new-post announcement by asking for the board at once: the board it is served holds that post; a post made while the board file cannot be written is announced only if the board then holds it",
+    "C20": "accounts in the legacy storage form are migrated at start-up (privileges compared over the defined bits); after every kill point the touched accounts are also deleted and, for a crashed rename, the new login is created afresh: both must be acknowledged and no other account may vanish; TestC20Acked also compares the in-memory category with the news file at each acknowledgement and includes news replies; after every kill point the accounts the interrupted update was about are also edited in place: the edit must be acknowledged, loaded by the next restart and leave every other account alone; TestC20Main: the repository's own main program (built from the current tree) is started with -init on a missing configuration directory, the administrator of the default configuration makes 1-4 acknowledged changes over loopback TCP (delete / rename / edit the default guest account, create and delete accounts, board post, news category), the process is killed at the last acknowledgement and started again with or without -init: the account directory (production loader) must hold exactly the accounts the acknowledged changes leave, board and news files the posts and categories, and the restarted server must admit the remaining accounts and refuse the deleted and renamed-away logins; after every kill point of a rename that did not go through, one process repeats the rename, creates a new account under the old login and edits it (no restart in between): both accounts are what the next restart loads",
 }
 for _k, _v in _LATER.items():
     PROPS[_k]["rule"] += "; LATER ADDITIONS: " + _v
